@@ -29,8 +29,8 @@ QVerdict ==
 
 GVerdict ==
     IF e.baseerr THEN "open"
-    ELSE IF e.err THEN "error-instead-of-rows"
     ELSE IF ~SumJudgeable(e.base, Range(e.keys), e.spec) THEN "open"
+    ELSE IF e.err THEN "error-instead-of-rows"
     ELSE IF GroupOK(e.rows, e.base, Range(e.keys), e.spec) THEN "ok"
     ELSE IF Len(e.rows) # Cardinality(GroupsOf(e.base, Range(e.keys))) THEN "group-count"
     ELSE "aggregate-value"
@@ -55,6 +55,7 @@ HVerdict ==
     ELSE IF HavingOpen(e.e, e.base) THEN "open"
     ELSE IF e.err THEN (IF HavingSameKinds(e.e, e.base) THEN "error-instead-of-rows" ELSE "open")
     ELSE IF Permutation(e.rows, FilterSeq(e.base, e.e)) THEN "ok"
+    ELSE IF Permutation(e.rows, FilterSeqDev(e.base, e.e)) THEN "numbers-compared-as-padded-text"
     ELSE "having-rows"
 
 MVerdict ==
